@@ -3,6 +3,7 @@ import QcelVerif.Props.C01Faithful
 import QcelVerif.Props.C01Aliases
 import QcelVerif.Props.C01Nuclides
 import QcelVerif.Props.C01Anycase
+import QcelVerif.Props.C01Anchor
 /-!
 # C01 — periodic-table lookups: property theorems (index)
 
@@ -11,5 +12,8 @@ import QcelVerif.Props.C01Anycase
  * **table-wide** (`decide +kernel` over the *generated* tables — the whole finite table, re-checked
    whenever the data files change): `shipped_faithful` (the shipped table is exactly the documented
    rebuild of the raw NIST SRD-144 file), `tree_isBST`, `tree_is_dict`, `aliases_agree`,
-   `nuclides_resolve`, `nuclides_resolve_anycase`.
+   `nuclides_resolve`, `nuclides_resolve_anycase`;
+ * **anchored outside the repository** (`C01Anchor`; `decide +kernel` against the textbook table embedded in
+   `harness/c01_anchor.py` and the raw "Standard Atomic Weight" strings of SRD-144): `bare_default_textbook`,
+   `anchor_agrees_with_srd144`.
 -/
